@@ -270,9 +270,17 @@ def main():
             log(f"VIOLATION property={pid} replay={os.path.abspath(args.replay)}")
         sys.exit(1 if fails else 0)
 
-    workdir = os.path.join(VERIF, "build", "run", f"{pid}-{tier}")
+    # one work directory per invocation (concurrent runs of the same check must not collide)
+    workdir = os.path.join(VERIF, "build", "run", f"{pid}-{tier}-{os.getpid()}")
     shutil.rmtree(workdir, ignore_errors=True)
     os.makedirs(workdir)
+    # work directories of failed runs are kept for triage; drop them after six hours
+    for d in glob.glob(os.path.join(VERIF, "build", "run", "*")):
+        try:
+            if time.time() - os.path.getmtime(d) > 6 * 3600:
+                shutil.rmtree(d, ignore_errors=True)
+        except OSError:
+            pass
     artdir = os.path.join(VERIF, "artifacts", pid)
     os.makedirs(artdir, exist_ok=True)
 
@@ -452,7 +460,13 @@ def main():
     if confirmed:
         for dest, out in confirmed[:5]:
             tail = "\n".join(out.strip().splitlines()[-25:])
-            log(f"[{pid}] failing case {dest}:\n{tail}")
+            head = ""
+            try:
+                with open(dest, errors="replace") as fh:
+                    head = "".join(l for l in fh.readlines()[:8] if l.startswith("# "))[:1500]
+            except OSError:
+                pass
+            log(f"[{pid}] failing case {dest}:\n{head}{tail}")
         for dest, _ in confirmed[:5]:
             log(f"VIOLATION property={pid} replay={dest}")
         sys.exit(1)
